@@ -6,6 +6,9 @@ CHECKS = {
  "C10": dict(text="Coq theorems (Props/C10.v): fixed-width, var-int, string, sequence, dictionary round-trips with exact consumption, shortest width, low-bit length code, 62-bit refusal, and typed_roundtrip for every value of every supported type by induction on the type; the width arms/masks/shifts/limits the model is built from are regenerated from the Rust sources on every run; the model is tied to Encoder/Decoder by differential execution (all 8/16-bit values, var-int edges, strings, nested collections).",
              note="Trusted: Coq kernel, extraction (ExtrOcamlBasic), regen.py, harness; floats are transported as bit patterns (IEEE semantics not modelled); HashMap order is an oracle.",
              tech="Coq proof (induction on types, lia) + regenerated tables + differential correspondence", ref="DESIGN.md §7 C10"),
+ "C12": dict(text="Coq theorems (Props/C12.v), by induction over arbitrary operation histories: the fixed-slice and growable targets refine an append-only log of segments with holes (same result per op; buffer = rendered log ++ untouched tail; cursor = log length; reservations = unwritten hole ranges), failed ops are no-ops, the slice never grows or moves past its end, a write into a reservation is confined to it and shrinks it from the front, reservations are disjoint and below the cursor, vec reservations are zeroed; reads stay within the source, peeks do not consume. Tied to the Rust buffers by lock-step histories (bounded-exhaustive + random) with guard bytes.",
+             note="Trusted: Coq kernel, extraction, harness. Allocation success is an oracle. Memory safety of unsafe blocks is outside the model (guard bytes only).",
+             tech="Coq refinement proof by induction over histories + lock-step differential correspondence", ref="DESIGN.md §7 C12"),
 }
 NOT_APPLICABLE = {}
 def main():
